@@ -14,11 +14,12 @@ import numpy as np
 ID = 'C03'
 RULE = ('all ordered sets of <=2 (T: <=3) trajectories over states {0,1,2} with lengths 1..4 '
         '(T: 1..5) x lag 1..5 (T: 1..6) x sliding x max_n_states{None,obs,obs+2} x 4 encodings; '
+        'plus narrow storage types (int8/uint8/int16) with state ids near their limits and lag given as int/np.int64/np.int32/np.uint8/np.uint64; '
         'state = (trajectory set, lag, sliding, n_states); non-trivial = count matrix with >=1 '
         'counted pair; oracle = double loop over (t,t+lag) inside each trajectory')
 ASSUMPTIONS = ['state alphabet {0,1,2} and lengths <=5 are representative (small-scope hypothesis)',
                '-1 appears only as trailing padding (the only use the property describes)']
-GUARDS = {'short_traj_lt_lag': 1000, 'nonsliding_differs': 1000, 'padded_rows': 1000,
+GUARDS = {'narrow_dtype': 100, 'short_traj_lt_lag': 1000, 'nonsliding_differs': 1000, 'padded_rows': 1000,
           'equal_length_rows': 1000}
 
 
@@ -32,12 +33,12 @@ def seqs(maxlen, nst=3):
 def shards(tier, seed):
     if tier == 'quick':
         S = seqs(4)
-        sh = [('pairs', 4, i) for i in range(len(S))] + [('singles', 4, 0)]
+        sh = [('pairs', 4, i) for i in range(len(S))] + [('singles', 4, 0)] + [('wide', 0, 0)]
     else:
         S5 = seqs(5)
         sh = [('pairs', 5, i) for i in range(len(S5))] + [('singles', 5, 0)]
         S3 = seqs(3)
-        sh += [('triples', 3, i) for i in range(len(S3))]
+        sh += [('triples', 3, i) for i in range(len(S3))] + [('wide', 0, 0)]
     return sh
 
 
@@ -132,7 +133,70 @@ def check_case(case, ctx, single_cache=None):
             pass  # already reported above
 
 
+def check_wide(case, ctx):
+    """narrow integer storage types with state ids near their limits, lag given as various integer types"""
+    from enspara.msm.transition_matrices import assigns_to_counts
+    from enspara import ra
+    trajs, lag, sliding, dt, lagtype, enc = case['trajs'], case['lag'], case['sliding'], case['dtype'], case['lagtype'], case['enc']
+    ctx.ev()
+    ctx.guard('narrow_dtype')
+    n = max(max(t) for t in trajs) + 1
+    ctx.state(('wide', tuple(map(tuple, trajs)), lag, sliding, dt, lagtype, enc, case['mns']), nontrivial=True)
+    want = {}
+    for tr in trajs:
+        for t in range(len(tr)):
+            if t + lag < len(tr) and (sliding or t % lag == 0):
+                want[(tr[t], tr[t + lag])] = want.get((tr[t], tr[t + lag]), 0) + 1
+    if enc == 'ragged':
+        a = ra.RaggedArray([np.array(t, dtype=dt) for t in trajs])
+    else:
+        L = max(len(t) for t in trajs)
+        a = -np.ones((len(trajs), L), dtype=dt) if np.dtype(dt).kind == 'i' else None
+        if a is None:
+            return
+        for i, t in enumerate(trajs):
+            a[i, :len(t)] = t
+    lagv = {'int': int(lag), 'int64': np.int64(lag), 'int32': np.int32(lag), 'uint8': np.uint8(lag), 'uint64': np.uint64(lag)}[lagtype]
+    try:
+        C = assigns_to_counts(a, lag_time=lagv, max_n_states=(n if case['mns'] else None), sliding_window=sliding).tocoo()
+    except Exception as e:
+        ctx.violation('counts:narrow_dtype:raises:%s:%s' % (type(e).__name__, 'lagtype_' + lagtype if lagtype.startswith('u') else dt), case,
+                      'assigns_to_counts raised %r on %r' % (e, case))
+        return
+    got = {}
+    for i, j, v in zip(C.row.tolist(), C.col.tolist(), C.data.tolist()):
+        if v:
+            got[(i, j)] = got.get((i, j), 0) + v
+    if C.shape != (n, n) or got != want:
+        ctx.violation('counts:narrow_dtype:value:%s' % dt, case, 'shape %s entries %r, expected (%d,%d) %r (%r)' % (C.shape, got, n, n, want, case))
+
+
+def wide_cases():
+    out = []
+    fam = {'int8': (11, 12, 100, 127), 'uint8': (15, 16, 200, 255), 'int16': (181, 182, 600, 1000), 'int32': (1000,), 'int64': (1000,)}
+    for dt, tops in fam.items():
+        for top in tops:
+            for trajs in ([[0, top, 1, top, top, 0]], [[top, 0, top], [1, top]], [[top], [0, 1, top, 1, 0, top, top]]):
+                for lag in (1, 2):
+                    for sliding in (True, False):
+                        for enc in ('ragged', 'padded'):
+                            for mns in (True, False):
+                                out.append({'kind': 'wide', 'trajs': trajs, 'lag': lag, 'sliding': sliding, 'dtype': dt,
+                                            'lagtype': 'int', 'enc': enc, 'mns': mns})
+    for lagtype in ('int64', 'int32', 'uint8', 'uint64'):
+        for lag in (1, 2, 3):
+            for sliding in (True, False):
+                out.append({'kind': 'wide', 'trajs': [[0, 1, 2, 1, 0, 2, 2], [2, 1]], 'lag': lag, 'sliding': sliding, 'dtype': 'int64',
+                            'lagtype': lagtype, 'enc': 'ragged', 'mns': False})
+    return out
+
+
 def run_shard(sh, ctx):
+    if sh[0] == 'wide':
+        for c in wide_cases():
+            check_wide(c, ctx)
+        ctx.sample(c)
+        return
     kind, maxlen, i = sh
     S = seqs(maxlen)
     lags = range(1, maxlen + 2)
@@ -155,4 +219,7 @@ def run_shard(sh, ctx):
 
 
 def replay(case, ctx):
-    check_case(case, ctx)
+    if case.get('kind') == 'wide':
+        check_wide(case, ctx)
+    else:
+        check_case(case, ctx)
